@@ -60,8 +60,8 @@ def run_obligations(spec, prog, prop):
     return nf, nu, msgs
 
 
-def seeds_for(prop):
-    base = os.path.join(ROOT, "seeded")
+def seeds_for(prop, kind="seeded"):
+    base = os.path.join(ROOT, kind)
     out = []
     if not os.path.isdir(base):
         return out
@@ -338,5 +338,21 @@ def specificity(ctx, spec, prop, repo, files, skip=()):
             elif nu:
                 ctx.cur.samples.append({"twin": label, "note": "analysis does not recognise the rewritten idiom (robustness gap, not a verdict)",
                                         "details": msgs[:3]})
+        finally:
+            shutil.rmtree(tmp, ignore_errors=True)
+    # stored behaviour-preserving refactorings written by independent agents (preserving/<id>-<v>): the same question
+    for name, patch, meta in seeds_for(prop, "preserving"):
+        tmp = scratch_copy(repo)
+        try:
+            r = subprocess.run(["patch", "-p1", "-s", "-d", tmp, "-i", patch], capture_output=True, text=True)
+            if r.returncode != 0:
+                ctx.count(1, {"refactoring": name, "result": "patch no longer applies to the current tree (skipped)"})
+                continue
+            prog = Program(tmp)
+            nf, nu, msgs = run_obligations(spec, prog, prop)
+            ctx.count(1, {"refactoring": name, "findings": nf, "unrecognised": nu, "first": msgs[:3]})
+            if nf:
+                ctx.finding("selftest", f"refactoring {name}", f"false alarm on the behaviour-preserving refactoring {name} "
+                            f"({(meta.get('summary') or '')[:120]}): {msgs[:2]}", None, None)
         finally:
             shutil.rmtree(tmp, ignore_errors=True)
